@@ -355,7 +355,9 @@ func (u *Unit) step(st *State, fr *Frame, instr ssa.Instruction) {
 	case *ssa.UnOp:
 		fr.regs[in] = u.unop(st, fr, in)
 	case *ssa.Store:
-		u.store(st, fr, in.Pos(), u.get(st, fr, in.Addr).(PtrV), u.get(st, fr, in.Val))
+		sv := u.get(st, fr, in.Val)
+		u.escape(st, sv)
+		u.store(st, fr, in.Pos(), u.get(st, fr, in.Addr).(PtrV), sv)
 	case *ssa.FieldAddr:
 		p := u.get(st, fr, in.X).(PtrV)
 		u.safety(st, fr, in.Pos(), "nil dereference (field)", Not(p.Nil))
@@ -380,15 +382,20 @@ func (u *Unit) step(st *State, fr *Frame, instr ssa.Instruction) {
 	case *ssa.Index:
 		fr.regs[in] = u.index(st, fr, in)
 	case *ssa.Slice:
+		if xv, ok := u.get(st, fr, in.X).(SliceV); ok {
+			u.escape(st, xv)
+		}
 		fr.regs[in] = u.sliceOp(st, fr, in)
 	case *ssa.MakeSlice:
 		fr.regs[in] = u.makeSlice(st, fr, in)
 	case *ssa.MakeInterface:
+		u.escape(st, u.get(st, fr, in.X))
 		fr.regs[in] = IfaceV{Nil: TFalse, Dyn: in.X.Type(), V: u.get(st, fr, in.X)}
 	case *ssa.ChangeInterface:
 		fr.regs[in] = u.get(st, fr, in.X)
 	case *ssa.ChangeType:
 		v := u.get(st, fr, in.X)
+		u.escape(st, v)
 		if s, ok := v.(SliceV); ok {
 			if sl, ok2 := in.Type().Underlying().(*types.Slice); ok2 {
 				s.Elem = sl.Elem()
@@ -417,6 +424,7 @@ func (u *Unit) step(st *State, fr *Frame, instr ssa.Instruction) {
 		var bind []Val
 		for _, b := range in.Bindings {
 			bind = append(bind, u.get(st, fr, b))
+			u.escape(st, bind[len(bind)-1])
 		}
 		fr.regs[in] = FuncV{Fn: in.Fn.(*ssa.Function), Bind: bind}
 	case *ssa.Range:
